@@ -38,6 +38,10 @@ func (p *Prog) containerRoot(v ssa.Value, depth int) *types.Var {
 			}
 			return p.containerRoot(x.X, depth+1)
 		}
+	case *ssa.Global:
+		if gv, ok := x.Object().(*types.Var); ok {
+			return gv
+		}
 	case *ssa.FieldAddr:
 		fv, _ := fieldOfAddr(x)
 		return fv
@@ -144,6 +148,16 @@ func stdMethodWrites(obj *types.Func) (known bool, writes bool) {
 		}
 	case "math/rand":
 		return true, true // *rand.Rand methods advance the generator state
+	case "sync":
+		// sync.Map: internally synchronised (see stdMethodSynchronized), but its mutators change shared state
+		if funcIs(obj, "sync", "Map", obj.Name()) {
+			switch obj.Name() {
+			case "Load", "Range":
+				return true, false
+			default:
+				return true, true
+			}
+		}
 	case "os":
 		// *os.File: everything that moves the shared file offset or changes the file is a write to the handle's state
 		if funcIs(obj, "os", "File", obj.Name()) {
@@ -156,6 +170,11 @@ func stdMethodWrites(obj *types.Func) (known bool, writes bool) {
 		}
 	}
 	return false, false
+}
+
+// stdMethodSynchronized: the method synchronises internally (no lock of the caller is needed for memory safety).
+func stdMethodSynchronized(obj *types.Func) bool {
+	return obj != nil && funcIs(obj, "sync", "Map", obj.Name())
 }
 
 type RaceAnalysis struct {
@@ -482,7 +501,7 @@ func (c *Ctx) racesFor(la *LockAnalysis, memoKey string) *RaceAnalysis {
 						recv = cc.Args[0]
 					}
 					if root := p.containerRoot(recv, 0); root != nil && !rootFresh(recv) {
-						add(root, "→obj", ins, writes, false, "call "+obj.Name())
+						add(root, "→obj", ins, writes, stdMethodSynchronized(obj), "call "+obj.Name())
 					}
 				}
 			}
